@@ -443,16 +443,165 @@ Proof.
   - specialize (HA _ eq_refl). discriminate.
   - specialize (HA _ eq_refl).
     cbn [collapse flat_map snd fst app ostrs].
-    rewrite !foldO_cons.
-    cbn [bb_step String.eqb Ascii.eqb Bool.eqb]. rewrite (conv_point_jpoint ll F1 F2). cbn [bind ba_ll ba_ur ba_axes ba_crs].
-    cbn [bb_step String.eqb Ascii.eqb Bool.eqb]. rewrite (conv_point_jpoint ur F3 F4). cbn [bind ba_ll ba_ur ba_axes ba_crs].
-    cbn [bb_step String.eqb Ascii.eqb Bool.eqb]. unfold jstrs, conv_strs. rewrite strs_of_map. cbn [bind ba_ll ba_ur ba_axes ba_crs].
-    cbn [bb_step String.eqb Ascii.eqb Bool.eqb]. rewrite NF. cbn [foldO bind ba_ll ba_ur ba_axes ba_crs].
+    rewrite foldO_cons. cbn [bb_step String.eqb Ascii.eqb Bool.eqb]. rewrite (conv_point_jpoint ll F1 F2). cbn [bind ba_ll ba_ur ba_axes ba_crs].
+    rewrite foldO_cons. cbn [bb_step String.eqb Ascii.eqb Bool.eqb]. rewrite (conv_point_jpoint ur F3 F4). cbn [bind ba_ll ba_ur ba_axes ba_crs].
+    rewrite foldO_cons. cbn [bb_step String.eqb Ascii.eqb Bool.eqb]. unfold jstrs, conv_strs. rewrite strs_of_map. cbn [bind ba_ll ba_ur ba_axes ba_crs].
+    rewrite foldO_cons. cbn [bb_step String.eqb Ascii.eqb Bool.eqb]. rewrite NF. cbn [foldO bind ba_ll ba_ur ba_axes ba_crs].
     rewrite DC. cbn [bind]. rewrite HA. reflexivity.
   - cbn [collapse flat_map snd fst app ostrs].
-    rewrite !foldO_cons.
-    cbn [bb_step String.eqb Ascii.eqb Bool.eqb]. rewrite (conv_point_jpoint ll F1 F2). cbn [bind ba_ll ba_ur ba_axes ba_crs].
-    cbn [bb_step String.eqb Ascii.eqb Bool.eqb]. rewrite (conv_point_jpoint ur F3 F4). cbn [bind ba_ll ba_ur ba_axes ba_crs].
-    cbn [bb_step String.eqb Ascii.eqb Bool.eqb]. rewrite NF. cbn [foldO bind ba_ll ba_ur ba_axes ba_crs].
+    rewrite foldO_cons. cbn [bb_step String.eqb Ascii.eqb Bool.eqb]. rewrite (conv_point_jpoint ll F1 F2). cbn [bind ba_ll ba_ur ba_axes ba_crs].
+    rewrite foldO_cons. cbn [bb_step String.eqb Ascii.eqb Bool.eqb]. rewrite (conv_point_jpoint ur F3 F4). cbn [bind ba_ll ba_ur ba_axes ba_crs].
+    rewrite foldO_cons. cbn [bb_step String.eqb Ascii.eqb Bool.eqb]. rewrite NF. cbn [foldO bind ba_ll ba_ur ba_axes ba_crs].
     rewrite DC. cbn [bind]. reflexivity.
+Qed.
+
+(** ** The whole document *)
+Definition tms_wf (t : tms) : Prop :=
+  tms_valid t = true /\ crs_wf (t_crs t) /\ (forall b, t_bbox t = Some b -> bbox_wf b) /\
+  ms_ok (t_matrices t) /\ Forall (fun e => tm_wf (snd e)) (t_matrices t).
+
+Definition tms_stable (t : tms) : Prop := Forall (fun e => tm_stable (snd e)) (t_matrices t).
+
+Lemma foldO_collapse_cons : forall {S} (f : S -> string * json -> outcome S) k ov rest a,
+  foldO f (collapse ((k, ov) :: rest)) a =
+  match ov with
+  | Some v => bind (f a (k, v)) (fun a' => foldO f (collapse rest) a')
+  | None => foldO f (collapse rest) a
+  end.
+Proof. intros. rewrite collapse_cons. destruct ov; reflexivity. Qed.
+
+Section TopSteps.
+  Context {R : Type} (K : topacc -> outcome R).
+  Variables (i ti de ur wk : string) (kw ax : option (list string)) (bb : option bbox) (cr tm : option json).
+
+  Lemma top_id : forall s,
+    match ostr s with Some v => bind (top_step (MkTop "" ti de kw ur ax wk bb cr tm) ("id", v)) K | None => K (MkTop "" ti de kw ur ax wk bb cr tm) end
+    = K (MkTop s ti de kw ur ax wk bb cr tm).
+  Proof. intros s. unfold ostr. destruct (String.eqb s "") eqn:E; [apply String.eqb_eq in E; subst s|]; reflexivity. Qed.
+
+  Lemma top_title : forall s,
+    match ostr s with Some v => bind (top_step (MkTop i "" de kw ur ax wk bb cr tm) ("title", v)) K | None => K (MkTop i "" de kw ur ax wk bb cr tm) end
+    = K (MkTop i s de kw ur ax wk bb cr tm).
+  Proof. intros s. unfold ostr. destruct (String.eqb s "") eqn:E; [apply String.eqb_eq in E; subst s|]; reflexivity. Qed.
+
+  Lemma top_desc : forall s,
+    match ostr s with Some v => bind (top_step (MkTop i ti "" kw ur ax wk bb cr tm) ("description", v)) K | None => K (MkTop i ti "" kw ur ax wk bb cr tm) end
+    = K (MkTop i ti s kw ur ax wk bb cr tm).
+  Proof. intros s. unfold ostr. destruct (String.eqb s "") eqn:E; [apply String.eqb_eq in E; subst s|]; reflexivity. Qed.
+
+  Lemma top_kw : forall l,
+    match ostrs l with Some v => bind (top_step (MkTop i ti de None ur ax wk bb cr tm) ("keywords", v)) K | None => K (MkTop i ti de None ur ax wk bb cr tm) end
+    = K (MkTop i ti de (norm_strs l) ur ax wk bb cr tm).
+  Proof.
+    intros [[|x r]|]; try reflexivity. cbn [ostrs norm_strs top_step String.eqb Ascii.eqb Bool.eqb].
+    unfold top_strs, jstrs, conv_strs. rewrite strs_of_map. reflexivity.
+  Qed.
+
+  Lemma top_uri : forall s,
+    match ostr s with Some v => bind (top_step (MkTop i ti de kw "" ax wk bb cr tm) ("uri", v)) K | None => K (MkTop i ti de kw "" ax wk bb cr tm) end
+    = K (MkTop i ti de kw s ax wk bb cr tm).
+  Proof. intros s. unfold ostr. destruct (String.eqb s "") eqn:E; [apply String.eqb_eq in E; subst s|]; reflexivity. Qed.
+
+  Lemma top_axes : forall l,
+    bind (top_step (MkTop i ti de kw ur None wk bb cr tm) ("orderedAxes", match l with None => JNull | Some x => jstrs x end)) K
+    = K (MkTop i ti de kw ur l wk bb cr tm).
+  Proof.
+    intros [x|]; cbn [top_step String.eqb Ascii.eqb Bool.eqb]; unfold top_strs; [|reflexivity].
+    unfold jstrs, conv_strs. rewrite strs_of_map. reflexivity.
+  Qed.
+
+  Lemma top_wkss : forall s,
+    match ostr s with Some v => bind (top_step (MkTop i ti de kw ur ax "" bb cr tm) ("wellKnownScaleSet", v)) K | None => K (MkTop i ti de kw ur ax "" bb cr tm) end
+    = K (MkTop i ti de kw ur ax s bb cr tm).
+  Proof. intros s. unfold ostr. destruct (String.eqb s "") eqn:E; [apply String.eqb_eq in E; subst s|]; reflexivity. Qed.
+
+  Lemma top_bbox : forall b, (forall x, b = Some x -> bbox_wf x) ->
+    match match b with None => None | Some x => Some (encodeBBox x) end with
+    | Some v => bind (top_step (MkTop i ti de kw ur ax wk None cr tm) ("boundingBox", v)) K
+    | None => K (MkTop i ti de kw ur ax wk None cr tm) end
+    = K (MkTop i ti de kw ur ax wk (option_map norm_bbox b) cr tm).
+  Proof.
+    intros [x|] H; [|reflexivity]. cbn [top_step String.eqb Ascii.eqb Bool.eqb].
+    rewrite (decodeBBox_encode x (H x eq_refl)). reflexivity.
+  Qed.
+
+  Lemma top_crs : forall v, nums_finite v = true ->
+    bind (top_step (MkTop i ti de kw ur ax wk bb None tm) ("crs", v)) K = K (MkTop i ti de kw ur ax wk bb (Some v) tm).
+  Proof. intros v H. cbn [top_step String.eqb Ascii.eqb Bool.eqb]. rewrite H. reflexivity. Qed.
+
+  Lemma top_tms : forall v, nums_finite v = true ->
+    bind (top_step (MkTop i ti de kw ur ax wk bb cr None) ("tileMatrices", v)) K = K (MkTop i ti de kw ur ax wk bb cr (Some v)).
+  Proof. intros v H. cbn [top_step String.eqb Ascii.eqb Bool.eqb]. rewrite H. reflexivity. Qed.
+End TopSteps.
+
+Section TopFolds.
+  Variables (i ti de ur wk : string) (kw ax : option (list string)) (bb : option bbox) (cr tm : option json) (rest : fields).
+  Let K := fun a => foldO top_step (collapse rest) a.
+
+  Lemma fold_id : forall s, foldO top_step (collapse (("id", ostr s) :: rest)) (MkTop "" ti de kw ur ax wk bb cr tm)
+    = foldO top_step (collapse rest) (MkTop s ti de kw ur ax wk bb cr tm).
+  Proof. intros. rewrite foldO_collapse_cons. exact (top_id K ti de ur wk kw ax bb cr tm s). Qed.
+  Lemma fold_title : forall s, foldO top_step (collapse (("title", ostr s) :: rest)) (MkTop i "" de kw ur ax wk bb cr tm)
+    = foldO top_step (collapse rest) (MkTop i s de kw ur ax wk bb cr tm).
+  Proof. intros. rewrite foldO_collapse_cons. exact (top_title K i de ur wk kw ax bb cr tm s). Qed.
+  Lemma fold_desc : forall s, foldO top_step (collapse (("description", ostr s) :: rest)) (MkTop i ti "" kw ur ax wk bb cr tm)
+    = foldO top_step (collapse rest) (MkTop i ti s kw ur ax wk bb cr tm).
+  Proof. intros. rewrite foldO_collapse_cons. exact (top_desc K i ti ur wk kw ax bb cr tm s). Qed.
+  Lemma fold_kw : forall l, foldO top_step (collapse (("keywords", ostrs l) :: rest)) (MkTop i ti de None ur ax wk bb cr tm)
+    = foldO top_step (collapse rest) (MkTop i ti de (norm_strs l) ur ax wk bb cr tm).
+  Proof. intros. rewrite foldO_collapse_cons. exact (top_kw K i ti de ur wk ax bb cr tm l). Qed.
+  Lemma fold_uri : forall s, foldO top_step (collapse (("uri", ostr s) :: rest)) (MkTop i ti de kw "" ax wk bb cr tm)
+    = foldO top_step (collapse rest) (MkTop i ti de kw s ax wk bb cr tm).
+  Proof. intros. rewrite foldO_collapse_cons. exact (top_uri K i ti de wk kw ax bb cr tm s). Qed.
+  Lemma fold_axes : forall l, foldO top_step (collapse (("orderedAxes", Some (match l with None => JNull | Some x => jstrs x end)) :: rest)) (MkTop i ti de kw ur None wk bb cr tm)
+    = foldO top_step (collapse rest) (MkTop i ti de kw ur l wk bb cr tm).
+  Proof. intros. rewrite foldO_collapse_cons. exact (top_axes K i ti de ur wk kw bb cr tm l). Qed.
+  Lemma fold_wkss : forall s, foldO top_step (collapse (("wellKnownScaleSet", ostr s) :: rest)) (MkTop i ti de kw ur ax "" bb cr tm)
+    = foldO top_step (collapse rest) (MkTop i ti de kw ur ax s bb cr tm).
+  Proof. intros. rewrite foldO_collapse_cons. exact (top_wkss K i ti de ur kw ax bb cr tm s). Qed.
+  Lemma fold_bbox : forall b, (forall x, b = Some x -> bbox_wf x) ->
+    foldO top_step (collapse (("boundingBox", match b with None => None | Some x => Some (encodeBBox x) end) :: rest)) (MkTop i ti de kw ur ax wk None cr tm)
+    = foldO top_step (collapse rest) (MkTop i ti de kw ur ax wk (option_map norm_bbox b) cr tm).
+  Proof. intros b H. rewrite foldO_collapse_cons. exact (top_bbox K i ti de ur wk kw ax cr tm b H). Qed.
+  Lemma fold_crs : forall v, nums_finite v = true ->
+    foldO top_step (collapse (("crs", Some v) :: rest)) (MkTop i ti de kw ur ax wk bb None tm)
+    = foldO top_step (collapse rest) (MkTop i ti de kw ur ax wk bb (Some v) tm).
+  Proof. intros v H. rewrite foldO_collapse_cons. exact (top_crs K i ti de ur wk kw ax bb tm v H). Qed.
+  Lemma fold_tms : forall v, nums_finite v = true ->
+    foldO top_step (collapse (("tileMatrices", Some v) :: rest)) (MkTop i ti de kw ur ax wk bb cr None)
+    = foldO top_step (collapse rest) (MkTop i ti de kw ur ax wk bb cr (Some v)).
+  Proof. intros v H. rewrite foldO_collapse_cons. exact (top_tms K i ti de ur wk kw ax bb cr v H). Qed.
+End TopFolds.
+
+Lemma tms_valid_norm : forall t, tms_valid (norm_tms t) = tms_valid t.
+Proof.
+  intros t. unfold tms_valid, norm_tms. cbn [t_uri t_orderedAxes t_wkss t_matrices].
+  destruct (t_matrices t); reflexivity.
+Qed.
+
+Lemma nums_finite_tms_array : forall l, Forall (fun e : Z * tileMatrix => tm_wf (snd e) /\ tm_stable (snd e)) l ->
+  nums_finite (JArr (map encodeTM (map snd l))) = true.
+Proof.
+  intros l H. cbn [nums_finite]. induction H as [|[k m] r [W S] _ IH]; [reflexivity|].
+  cbn [map snd forallb]. rewrite (nums_finite_encodeTM m W S), IH. reflexivity.
+Qed.
+
+Theorem encode_decode : forall t, tms_wf t -> tms_stable t -> decodeTMS (encodeTMS t) = Ok (norm_tms t).
+Proof.
+  intros t [HV [HC [HB [HM HW]]]] HS.
+  assert (HWS : Forall (fun e : Z * tileMatrix => tm_wf (snd e) /\ tm_stable (snd e)) (t_matrices t)).
+  { unfold tms_stable in HS. rewrite Forall_forall in *. intros e He. split; auto. }
+  unfold encodeTMS, decodeTMS, tms_fields. rewrite (sort_by_id_sorted _ HM).
+  unfold top_empty.
+  rewrite fold_id, fold_title, fold_desc, fold_kw, fold_uri, fold_axes, fold_wkss.
+  rewrite (fold_bbox _ _ _ _ _ _ _ _ _ _ (t_bbox t) HB).
+  rewrite (fold_crs _ _ _ _ _ _ _ _ _ _ _ (nums_finite_encodeCRS _ HC)).
+  rewrite (fold_tms _ _ _ _ _ _ _ _ _ _ _ (nums_finite_tms_array _ HWS)).
+  cbn [collapse flat_map foldO bind]. unfold decodeTop. cbn [ta_id ta_title ta_desc ta_kw ta_uri ta_axes ta_wkss ta_bbox ta_crs ta_tms].
+  rewrite (decodeCRS_encode _ HC). cbn [bind].
+  rewrite (decodeTMs_encode (t_matrices t) [] HM HWS) by (intros a e []).
+  cbn [bind app].
+  change (MkTMS (t_id t) (t_title t) (t_description t) (norm_strs (t_keywords t)) (t_uri t) (t_orderedAxes t) (t_wkss t)
+                (option_map norm_bbox (t_bbox t)) (t_crs t) (map norm_pair (t_matrices t))) with (norm_tms t).
+  rewrite tms_valid_norm, HV. reflexivity.
 Qed.
